@@ -23,7 +23,7 @@ RULE = ("TLC proves on Rescale.tla that after restoring M operator checkpoints (
         "operators deployed through the real jobs.Assembly.Deploy and every key is read back through the owning operator's handler "
         "after every step")
 
-DEVS = ["Dev_MultiWalPanic", "Dev_ConcatLevels", "Dev_SeqFromFirst", "Dev_ReplayAll"]
+DEVS = ["Dev_MultiWalPanic", "Dev_ConcatLevels", "Dev_DeleteMissingFails", "Dev_SeqFromFirst", "Dev_ReplayAll"]
 INVS = ["StateOK", "TimersOK", "OneOwner", "NoCrash", "SeqOK"]
 TIMES = (10, 20)
 BIG = (127, 128, 255, 32767, 32768, 39999)   # key groups whose 2-byte prefix has a byte on either side of 0x80
@@ -31,7 +31,7 @@ BIG = (127, 128, 255, 32767, 32768, 39999)   # key groups whose 2-byte prefix ha
 
 def consts(**kw):
     c = dict(Counts={2}, MaxOps=2, NGens=1, NKeys=2, Times="@{}", BigGroups="@{%s}" % ", ".join(map(str, BIG)),
-             MaxW1=2, MaxW2=1, MaxW3=0, MaxFl=2, MaxWm=0, Regimes={"major", "minor"}, MaxLen=1000, Canon=True)
+             MaxW1=2, MaxW2=1, MaxW3=0, MaxFl=2, MaxWm=0, MaxCk=1, Regimes={"major", "minor"}, MaxLen=1000, Canon=True)
     for d in DEVS:
         c[d] = False
     c.update(kw)
@@ -114,6 +114,10 @@ class Scn:
     def ckpt(self, perm):
         assert sorted(perm) == list(range(1, self.n + 1))
         self.steps.append(dict(a="Ckpt", perm=list(perm)))
+        self.can = [False] * self.n
+
+    def resume(self):               # the job goes on after the checkpoint: retention round
+        self.steps.append(dict(a="Resume"))
 
     def deploy(self, n, reg):
         self.steps.append(dict(a="Deploy", n=n, reg=reg))
@@ -150,6 +154,7 @@ Step(st) == CASE st.a = "W" -> Write(st.o, st.e, st.put)
               [] st.a = "Wm" -> AdvanceWm(st.o, st.t)
               [] st.a = "Ckpt" -> TakeCkpt(st.perm)
               [] st.a = "Deploy" -> Deploy(st.n, st.reg)
+              [] st.a = "Resume" -> Resume
               [] st.a = "Finish" -> Finish
 SInit == \\E i \\in 1..Len(Scripts) : sid = i /\\ InitWith(Scripts[i].init.count, Scripts[i].init.grp, Scripts[i].init.n, Scripts[i].init.reg)
 SNext == /\\ Len(hist) <= Len(Scripts[sid].steps) /\\ ~crashed /\\ Step(Scripts[sid].steps[Len(hist)]) /\\ UNCHANGED sid
@@ -170,7 +175,7 @@ def elaborate(c, scns, label, nkeys=3, devs=(), invariants=()):
             part = idx[lo:lo + 400]
             body = ",\n".join("  [init |-> %s, steps |-> %s]" % (_tla(scns[i].init), _tla(scns[i].steps)) for i in part)
             cs = consts(Counts={1}, MaxOps=8, NGens=nd, NKeys=nkeys, Times="@{%s}" % ", ".join(map(str, TIMES)), MaxW1=99, MaxW2=99,
-                        MaxW3=99, MaxFl=9, MaxWm=9, Canon=False, **{d: True for d in devs})
+                        MaxW3=99, MaxFl=9, MaxWm=9, MaxCk=9, Canon=False, **{d: True for d in devs})
             r = vlib.run_tlc("RescaleScript", cfg=dict(spec="SSpec", constants=cs, invariants=["SDump"] + list(invariants)), workers=1,
                              timeout=900, files={"RescaleScript.tla": SCRIPT_MOD % body}, name="RescaleScript")
             results.append(r)
@@ -271,6 +276,10 @@ def grid(tier, seed):
                     s.ckpt(perm)
                     s.deploy(n, reg2)
                     post_restore(s, v)
+                    if v % 2 == 0:      # the job completes a checkpoint and goes on: retention round, more writes
+                        s.ckpt(list(range(1, n + 1)))
+                        s.resume()
+                        s.put(1 + v % 3)
                     if v % 3 != 0:      # a second checkpoint (acks reversed) and rescale
                         s.ckpt(list(range(n, 0, -1)))
                         m2 = 1 + (v // 3) % maxops
@@ -326,6 +335,14 @@ def witnesses():
     s = Scn(3, [0, 1, 2], 1, "major"); build_gen1(s, "CCC", dels=(2,)); s.ckpt([1]); s.deploy(3, "major"); s.put_flush(1)
     s.ckpt([3, 2, 1]); s.deploy(2, "minor"); s.put(2)
     out["wal-tombstone-over-compacted"] = s.finish()
+    # scale-out: both new operators were restored from the same old checkpoint; each drops it in its first retention round
+    # (was: the second delete of the old WAL file failed and every later checkpoint of that operator failed)
+    s = Scn(2, [0, 1, 1], 1, "major"); build_gen1(s, "FWW"); s.ckpt([1]); s.deploy(2, "major"); s.put(1); s.put(2); s.ckpt([2, 1]); s.resume()
+    s.put_flush(3); s.ckpt([1, 2]); s.resume(); s.delete(1); s.ckpt([1, 2]); s.deploy(3, "minor")
+    out["retention-after-scale-out"] = s.finish()
+    s = Scn(5, [0, 2, 4], 2, "minor"); build_gen1(s, "CWF"); s.ckpt([2, 1]); s.resume(); s.put(2); s.ckpt([1, 2]); s.deploy(3, "major"); s.put(1)
+    s.ckpt([3, 2, 1]); s.resume(); s.put(3); s.ckpt([1, 2, 3]); s.deploy(2, "major"); s.ckpt([1, 2]); s.resume()
+    out["retention-2-3-2"] = s.finish()
     # more operators than key groups (empty ranges on both sides)
     s = Scn(1, [0, 0, 0], 2, "major"); build_gen1(s, "CFW"); s.ckpt([2, 1]); s.deploy(3, "major"); s.put(1)
     s.ckpt([3, 1, 2]); s.deploy(1, "minor")
@@ -355,6 +372,9 @@ def random_scns(nscn, seed, maxops, counts):
                     s.timer(k, rnd.randint(1, 2))
                 else:
                     s.advance(rnd.randint(1, s.n), rnd.choice(TIMES))
+                if rnd.random() < 0.12:
+                    s.ckpt(list(range(1, s.n + 1)))
+                    s.resume()
             perm = list(range(1, s.n + 1))
             rnd.shuffle(perm)
             s.ckpt(perm)
@@ -421,12 +441,14 @@ def dev_witnesses(c, dev, nkeys, label, limit, **kw):
 def run(c):
     q = c.tier == "quick"
     # ---- 1. the design: exhaustive
-    exhaustive(c, "one rescale, counts 1..5,8, M,N<=3, all acks, 2 keys, 2 writes + 1 after restore, both regimes",
-               Counts={1, 2, 3, 4, 5, 8}, MaxOps=3, NGens=1, MaxW1=2, MaxW2=1, timeout=400)
-    exhaustive(c, "two rescales, counts 2,3, M,N,M'<=2, 2 keys, 3+2+1 writes, 2 flushes, both regimes",
-               Counts={2, 3}, MaxOps=2, NGens=2, MaxW1=3, MaxW2=2, MaxW3=1, Regimes={"major"} if q else {"major", "minor"}, timeout=900)
-    exhaustive(c, "timers: one rescale, count 2,3, 2 keys x (state + 2 timers), watermark advances",
-               Counts={2, 3}, MaxOps=2, NGens=1, Times="@{10, 20}", MaxW1=3, MaxW2=1, MaxWm=1, MaxFl=1, Regimes={"major"}, timeout=900)
+    exhaustive(c, "one rescale, counts 1..5,8, M,N<=3, all acks, 2 keys, 2 writes + 1 after restore",
+               Counts={1, 2, 3, 4, 5, 8}, MaxOps=3, NGens=1, MaxW1=2, MaxW2=1, Regimes={"major"} if q else {"major", "minor"}, timeout=400)
+    exhaustive(c, "two rescales, counts 2,3, M,N,M'<=2, 2 keys, 3+2(+1) writes, 2 flushes",
+               Counts={2, 3}, MaxOps=2, NGens=2, MaxW1=3, MaxW2=2, MaxW3=0 if q else 1, Regimes={"major"} if q else {"major", "minor"}, timeout=900)
+    exhaustive(c, "retention rounds: one rescale, counts 2,3, M,N<=3, two checkpoints per generation", Counts={2, 3}, MaxOps=3, NGens=1, MaxW1=2, MaxW2=1,
+               MaxCk=2, MaxFl=1, Regimes={"major"}, timeout=600)
+    exhaustive(c, "timers: one rescale, counts 2,3, 2 keys x (state + timer), watermark advance",
+               Counts={2, 3}, MaxOps=2, NGens=1, Times="@{10}", MaxW1=3, MaxW2=1, MaxWm=1, MaxFl=1, Regimes={"major"}, timeout=900)
     if not q:
         exhaustive(c, "one rescale, counts 1..5,8, M,N<=4, 3 writes + 2 after restore", Counts={1, 2, 3, 4, 5, 8}, MaxOps=4, NGens=1,
                    MaxW1=3, MaxW2=2, Regimes={"major"}, timeout=2400)
@@ -434,16 +456,20 @@ def run(c):
                    Regimes={"major"}, timeout=2400)
         exhaustive(c, "big counts 256 / 40000 (groups on both sides of 0x80), M,N<=3", Counts={256, 40000}, MaxOps=3, NGens=1, MaxW1=2, MaxW2=1,
                    Regimes={"major"}, timeout=1200)
+        exhaustive(c, "timers: counts 2,3, 2 keys x (state + 2 timers), 2 watermark advances", Counts={2, 3}, MaxOps=2, NGens=1, Times="@{10, 20}",
+                   MaxW1=3, MaxW2=1, MaxWm=2, MaxFl=1, Regimes={"major"}, timeout=1200)
     c.exhaustive = True
     # ---- 2. the model distinguishes the repaired defects and the design mutations; their witnesses do not reproduce
     dev_witnesses(c, "Dev_MultiWalPanic", 2, "1 rescale", 12 if q else 40, Counts={2}, NGens=1, MaxW1=2, MaxW2=1, Regimes={"major"})
     dev_witnesses(c, "Dev_ConcatLevels", 2, "2 rescales", 16 if q else 60, Counts={2}, NGens=2, MaxW1=3, MaxW2=2, MaxW3=0, Regimes={"major"})
+    dev_witnesses(c, "Dev_DeleteMissingFails", 2, "1 rescale, 2 checkpoints", 12 if q else 40, Counts={2}, NGens=1, MaxW1=1, MaxW2=1, MaxCk=2, MaxFl=1,
+                  Regimes={"major"})
     dev_witnesses(c, "Dev_SeqFromFirst", 2, "1 rescale", 12 if q else 40, Counts={2}, NGens=1, MaxW1=3, MaxW2=2, Regimes={"major"})
     dev_witnesses(c, "Dev_ReplayAll", 2, "2 rescales", 12 if q else 40, Counts={2}, NGens=2, MaxW1=2, MaxW2=1, MaxW3=1, MaxFl=1, Regimes={"major"})
     # ---- 3. scripted scenarios elaborated by TLC (the spec's invariants are checked on them too), replayed
     wit = witnesses()
     scns = list(wit.values()) + grid(c.tier, c.seed) + big_counts(c.seed)
-    scns += random_scns(120 if q else 1500, c.seed * 7919 + 1, 3 if q else 6, [1, 2, 3, 4, 5, 8, 256, 40000])
+    scns += random_scns(120 if q else 1500, c.seed * 7919 + 1, 3 if q else 6, [1, 2, 3, 4, 5, 8, 256] * 3 + [40000])
     behs, results = elaborate(c, scns, "scenarios", invariants=INVS)
     for r in results:
         if r.violated or r.error:
@@ -456,10 +482,11 @@ def run(c):
         c.sample(dict(kind="Rescale scenario elaborated by TLC and replayed on real operators (jobs.Assembly.Deploy)",
                       steps=[{k: v for k, v in s.items() if k not in ("lay", "pred")} for s in behs[3][:30]]))
     # ---- 4. random walks of the spec itself
-    n = 150 if q else 1200
-    for i, kw in enumerate([dict(Counts={2, 3, 5}, MaxOps=3, NGens=2, NKeys=3, Times="@{10, 20}", MaxW1=5, MaxW2=3, MaxW3=2, MaxFl=3, MaxWm=2, MaxLen=40),
-                            dict(Counts={256, 40000}, MaxOps=3 if q else 6, NGens=2, NKeys=3, Times="@{10}", MaxW1=4, MaxW2=3, MaxW3=1, MaxFl=2, MaxWm=1, MaxLen=36)]):
-        walks, r = vlib.gen_behaviours("Rescale", consts(Canon=False, **kw), n, 60, c.seed * 100 + i, timeout=600)
+    n = 60 if q else 500
+    for i, kw in enumerate([dict(Counts={2, 3, 5}, MaxOps=3, NGens=2, NKeys=3, Times="@{10, 20}", MaxW1=5, MaxW2=3, MaxW3=2, MaxFl=3, MaxWm=2, MaxCk=2, MaxLen=44),
+                            dict(Counts={256} if q else {8, 256, 40000}, MaxOps=3 if q else 6, NGens=2, NKeys=3, Times="@{10}", MaxW1=4, MaxW2=3, MaxW3=1,
+                                 MaxFl=2, MaxWm=1, MaxLen=36)]):
+        walks, r = vlib.gen_behaviours("Rescale", consts(Canon=False, **kw), n if i == 0 else n // 2, 60, c.seed * 100 + i, timeout=600)
         c.states += r.generated
         c.transitions += r.generated
         run_replay(c, walks, "TLC -simulate walks %d" % i, chunk=25, timeout=3000)
